@@ -68,6 +68,10 @@ Definition dispatch_file (toks : list (list N)) : option (list N * list N) :=
       if is "ocgrfile" op then
         let rs := parse_hex_list recs in
         Some (m_ocgrfile (parse_nat k) (parse_Z sz) (flag norm) rs, s_ocgrfile (parse_nat k) (parse_Z sz) (flag norm) rs)
+      else if is "covfs" op then    (* covfs k bs bc norm limit plant recs *)
+        let rs := parse_hex_list recs in
+        Some (m_covfs (parse_nat k) (parse_nat sz) (parse_nat norm) (flag threads) (parse_dec mem) (flag container) rs,
+              s_covfs (parse_nat k) (parse_nat sz) (parse_nat norm) (flag threads) (parse_dec mem) (flag container) rs)
       else None
   | _ => None
   end.
